@@ -239,13 +239,10 @@ def run(ctx, progs):
         if not b:
             ctx.ob("C02.anchor", "prov(prog, GM, 'check_address')", False, "", "anchor body not found (renamed or removed): the rule cannot be evaluated — fail closed")
         if b:
-            t = single(b)
-            env = {}
-            ok = t is not None and match(C("Option::map", C("GuestMemory::find_region", P(1), P(2)), CLO("c")), t, env)
-            if ok:
-                cb, ct = closure_ret(prog, eff, env["c"])
-                ok = ct is not None and unref(ct)[:2] == ('param', 2) and unref(ct)[2] == "addr"
-            ctx.ob("R2.3.check_address", b.key, ok, b.where(), "find_region(addr).map(|_| addr): returns its own addr")
+            FRc = C("GuestMemory::find_region", P(1), P(2))
+            outcome_spec(ctx, prog, eff, "R2.3.check_address", b,
+                         [(AGG("Option", "Some", P(2)), [('discr', FRc, 1)]), (NONE, [('discr', FRc, 0)])],
+                         "find_region(addr) is Some(_) => Some(addr) (its own addr); None => None")
         CA = C("Address::checked_add", P(2), P(3))
         outcome_spec(ctx, prog, eff, "R2.3.checked_offset", prov(prog, GM, "checked_offset"),
                      [(C("GuestMemory::check_address", P(1), OKP(CA)), [('discr', CA, 1)]), (NONE, [('discr', CA, 0)])],
